@@ -15,7 +15,7 @@ use crate::report::*;
 use crate::res::*;
 use crate::rng::{mix, Rng};
 
-const PROFILES: [Profile; 8] = [
+const PROFILES: [Profile; 13] = [
     Profile::Dense,
     Profile::Dense,
     Profile::Funnel,
@@ -24,6 +24,11 @@ const PROFILES: [Profile; 8] = [
     Profile::Tiny,
     Profile::Tiny,
     Profile::SparseWide,
+    Profile::Dense,
+    Profile::Mixed,
+    Profile::Funnel,
+    Profile::Batchy,
+    Profile::WideStage,
 ];
 
 fn writers_per_slot(plan: &Plan) -> usize {
@@ -162,12 +167,18 @@ fn step(t: &mut Twins, pm: DMode, sm: DMode, driver: Arc<dyn Driver>, rep: &mut 
 fn case(rng: &mut Rng, pools: &mut Pools, rep: &mut Report, case_no: u64, dump: bool) {
     let profile = *rng.pick(&PROFILES);
     let mut c = cfg_for(profile, rng);
-    c.p_static = c.p_static.max(25);
-    c.tl = (0, 2);
-    if c.slots.len() > 10 {
-        let k = rng.range(3, 10);
-        let all = c.slots.clone();
-        c.slots = pick_slots(rng, &all, k);
+    if profile == Profile::WideStage {
+        // one stage of more than 256 groups; the few systems with access share few resources
+        c.n = (258, 340);
+        c.tl = (0, 1);
+    } else {
+        c.p_static = c.p_static.max(25);
+        c.tl = (0, 2);
+        if c.slots.len() > 10 {
+            let k = rng.range(3, 10);
+            let all = c.slots.clone();
+            c.slots = pick_slots(rng, &all, k);
+        }
     }
     c.max_w = c.max_w.max(1);
     let plan = gen_with(rng, &c);
@@ -330,7 +341,7 @@ fn case_async(rng: &mut Rng, pools: &mut Pools, rep: &mut Report, case_no: u64) 
         rep.inconclusive += 1;
         return;
     };
-    let mut ad = b.build_async(full_world());
+    let mut ad = b.build_async(crate::res::full_world_with(plan.slots_used().into_iter()));
     ctx.set_mode(Mode::Quiet);
     ctx.arm(Arc::new(Jitter { seed: rng.next(), level: 0 }));
     let rounds = rng.range(2, 5);
